@@ -1,5 +1,5 @@
 SPECIFICATION TraceSpec
-CONSTANTS Malformed = "ascoded"
+CONSTANTS Malformed = "strict"
  ApiErr = "ascoded"
  Variant = "none"
 CONSTRAINT Mark
